@@ -34,6 +34,11 @@ pub enum Via {
     /// through a rule in the definitions file whose production is an `asm`
     /// block invoking the rule that holds the path
     AsmBlock,
+    /// the call is an argument expression of an instruction in the file
+    /// itself; the matching rule lives in the definitions file
+    Arg,
+    /// as Arg, but the argument belongs to a nested (subruledef) match
+    NestedArg,
 }
 
 #[derive(Clone, Debug, PartialEq, Eq, Serialize, Deserialize)]
@@ -146,6 +151,14 @@ impl Case {
                             Via::AsmBlock => {
                                 defs.push_str(&format!("#ruledef\n{{\n    inner{} => {}\n    wrap{} => asm {{ inner{} }}\n}}\n", k, call, k, k));
                                 t.push_str(&format!("wrap{}\n", k));
+                            }
+                            Via::Arg => {
+                                defs.push_str(&format!("#ruledef\n{{\n    pass{} {{v}} => v\n}}\n", k));
+                                t.push_str(&format!("pass{} {}\n", k, call));
+                            }
+                            Via::NestedArg => {
+                                defs.push_str(&format!("#subruledef operand{}\n{{\n    imm {{v}} => v\n}}\n#ruledef\n{{\n    outer{} {{o: operand{}}} => o\n}}\n", k, k, k));
+                                t.push_str(&format!("outer{} imm {}\n", k, call));
                             }
                         }
                     }
@@ -350,9 +363,9 @@ pub fn draw_case(rng: &mut Rng) -> Case {
                         Some("bits") => IncKind::Incbinstr,
                         _ => IncKind::Inchexstr,
                     };
-                    let via = if defs_path.is_some() { *rng.pick(&[Via::Direct, Via::Rule, Via::Fn, Via::AsmBlock, Via::Fn]) } else { Via::Direct };
+                    let via = if defs_path.is_some() { *rng.pick(&[Via::Direct, Via::Rule, Via::Fn, Via::AsmBlock, Via::Fn, Via::Arg, Via::NestedArg]) } else { Via::Direct };
                     let container = match via {
-                        Via::Direct => files[i].path.clone(),
+                        Via::Direct | Via::Arg | Via::NestedArg => files[i].path.clone(),
                         _ => defs_path.clone().unwrap(),
                     };
                     let spelling = draw_spelling(rng, &container, &data[d].path, true, std_dir, clean);
@@ -419,7 +432,7 @@ pub fn range_case(kind: IncKind, n: usize, start: Option<usize>, len: Option<usi
         defs_path = Some("lib/defs.asm".to_string());
         files[0].items.push(Item::Include("lib/defs.asm".to_string()));
     }
-    let spelling = if via == Via::Direct { "lib/data.dat".to_string() } else { "data.dat".to_string() };
+    let spelling = if matches!(via, Via::Direct | Via::Arg | Via::NestedArg) { "lib/data.dat".to_string() } else { "data.dat".to_string() };
     files[0].items.push(Item::Marker(0x11));
     files[0].items.push(Item::IncFn { kind, spelling, start, len, via });
     files[0].items.push(Item::Marker(0x12));
@@ -607,7 +620,7 @@ pub fn run(ctx: &mut Ctx, _c: &Corpus) -> Vec<Replay> {
     out
 }
 
-pub const GRID_RUNS: u64 = 3 * 7 * 4;
+pub const GRID_RUNS: u64 = 3 * 7 * 6;
 
 /// Run index -> the slice of the exhaustive (kind, file length, container)
 /// grid it covers: every (start, len) in [0, n+2]^2, (start) alone and ().
@@ -617,7 +630,7 @@ pub fn range_grid_slice(run: u64) -> Option<Vec<Case>> {
     }
     let kind = [IncKind::Incbin, IncKind::Incbinstr, IncKind::Inchexstr][(run % 3) as usize];
     let n = ((run / 3) % 7) as usize;
-    let via = [Via::Direct, Via::Rule, Via::Fn, Via::AsmBlock][((run / 21) % 4) as usize];
+    let via = [Via::Direct, Via::Rule, Via::Fn, Via::AsmBlock, Via::Arg, Via::NestedArg][((run / 21) % 6) as usize];
     let mut cases = Vec::new();
     cases.push(range_case(kind, n, None, None, via));
     for s in 0..=(n + 2) {
